@@ -37,6 +37,7 @@ func runC16(p *Prog, r *Report) {
 	c16NamespaceAgreement(p, r)
 	c16ResolveOrder(p, r)
 	c16DegreeSymmetry(p, r)
+	visitedScopeRule(p, r, "R16.1-visited-scope", 2, pValidate, pResolved)
 }
 
 // sccsOf computes the strongly connected components (with at least one cycle) of the call graph restricted to fns.
